@@ -72,7 +72,7 @@ class C20(Check):
     driver = "drv_c20"
     theorems = ["Pox.C20.ioworker_stream", "Pox.C20.ioworker_drained", "Pox.C20.ioworker_after_fatal", "Pox.C20.ioworker_unguarded_defect", "Pox.C20.ioworker_shutdown",
                 "Pox.C20.shutdown_with_pending", "Pox.C20.ioworker_progress", "Pox.C20.ioworker_history", "Pox.C20.ctl_stream",
-                "Pox.C20.ctl_quiescent", "Pox.C20.ctl_after_fatal", "Pox.C20.ctl_no_attempt_after_fatal", "Pox.C20.ctl_env_disc", "Pox.C20.multi_conn"]
+                "Pox.C20.ctl_quiescent", "Pox.C20.ctl_after_fatal", "Pox.C20.ctl_no_attempt_after_fatal", "Pox.C20.ctl_history", "Pox.C20.ctl_env_disc", "Pox.C20.multi_conn"]
     anchors = [("pox/lib/ioworker/__init__.py", "IOWorker._do_send"), ("pox/lib/ioworker/__init__.py", "IOWorker._consume_send_buf"),
                ("pox/lib/ioworker/__init__.py", "IOWorker.send"), ("pox/lib/ioworker/__init__.py", "RecocoIOWorker.send_fast"), ("pox/lib/ioworker/__init__.py", "RecocoIOWorker.send"),
                ("pox/openflow/of_01.py", "DeferredSender._sliceup"), ("pox/openflow/of_01.py", "DeferredSender.send"), ("pox/openflow/of_01.py", "DeferredSender.run"),
@@ -81,7 +81,7 @@ class C20(Check):
     technique = ("Lean 4 proof: stream invariant over all op sequences (IOWorker) and over all interleavings of a two-actor transition system "
                  "(Connection.send steps / DeferredSender flush steps / environment) + differential correspondence against the real classes with scripted sockets")
     level_text = ("Part A theorems (ioworker_stream/_drained/_after_fatal, and over time ioworker_history: accepted bytes are never retracted, each operation appends exactly its own message to the queued stream once) hold for every sequence of send/send_fast/loop iterations and every socket-outcome script. "
-                  "Part B theorems (ctl_stream/ctl_quiescent/ctl_after_fatal/ctl_no_attempt_after_fatal) hold for every interleaving, at the granularity of the unlocked flag read, the direct write, the locked enqueue, "
+                  "Part B theorems (ctl_stream/ctl_quiescent/ctl_after_fatal/ctl_no_attempt_after_fatal, and over time ctl_history: accepted and queued streams only grow at the end) hold for every interleaving, at the granularity of the unlocked flag read, the direct write, the locked enqueue, "
                   "each sender-thread write and its epilogue, of one connection with the deferred sender, every outcome script and PIPE_BUF; the other connections are environment actions (one defers / its entry is deleted / "
                   "it is disconnected: ctl_env_disc, a no-op), and a disconnect of the connection itself from the cooperative side is an action too. multi_conn: in every history of whole operations on n connections sharing the "
                   "deferred sender every connection's state is such a run, so the theorems hold per connection. The model is hand-written; each run re-checks it "
